@@ -390,6 +390,31 @@ Definition site_serve (c : wcfg) (cs : bool) (tbl : list (Z * N)) (haserr : bool
             else u in
   (client_status u', u_size u', lines).
 
+(* ---- shapes of handler scripts and configurations used by the theorems --------------------- *)
+Definition no_panic (ops : list wop) : bool :=
+  forallb (fun o => match o with OPanic => false | _ => true end) ops.
+Definition no_wh (ops : list wop) : bool :=
+  forallb (fun o => match o with OWH _ => false | _ => true end) ops.
+(* casket's handler contract as far as the writer is concerned: at most one WriteHeader, and
+   only before the first Write *)
+Definition wb (ops : list wop) : bool :=
+  match ops with
+  | OWH _ :: r => no_wh r
+  | _ => no_wh ops
+  end.
+(* what the log middleware adds itself when the handler returned [ret] *)
+Definition fallback (tbl : list (Z * N)) (ek : N) (ret : Z) : list wop :=
+  if (400 <=? ret)%Z then err_ops tbl ek ret else [].
+(* all log directives of the site have the same scope *)
+Definition uniform_scope (sc : bytes) (ds : list directive) : Prop := forall d, In d ds -> d_scope d = sc.
+(* only the last log directive has an except list *)
+Fixpoint exc_only_last (ds : list directive) : Prop :=
+  match ds with
+  | [] => True
+  | d :: r => match r with [] => True | _ => d_except d = [] /\ exc_only_last r end
+  end.
+Definition ids_of (ls : list line) : list nat := map (fun l => fst (fst l)) ls.
+
 (* ---- executable statement of the property on observations --------------------------------- *)
 Definition count_id (i : nat) (ls : list line) : nat :=
   length (filter (fun l => Nat.eqb (fst (fst l)) i) ls).
